@@ -1397,6 +1397,9 @@ func registerErrorsFmt() {
 					panic(r)
 				}
 			}()
+			if r, ok := in.sprintfSym(format, a[1].([]value)); ok {
+				return r
+			}
 			var args []any
 			for _, v := range a[1].([]value) {
 				args = append(args, in.fmtArg(v, strict))
@@ -1610,7 +1613,13 @@ func registerStrings() {
 	native("strings.ContainsRune", func(in *Interp, s []string, a []value) value {
 		c, ok := cint(a[1])
 		if !ok {
-			panic(engineErr("strings.ContainsRune symbolic rune"))
+			// symbolic rune against a concrete set: one boolean term, no fork
+			r := a[1].(*Term)
+			var alts []*Term
+			for _, x := range s[0] {
+				alts = append(alts, in.tc.Eq(r, in.tc.Const(r.w, uint64(uint32(x)))))
+			}
+			return in.tc.Or(alts...)
 		}
 		return b(in, strings.ContainsRune(s[0], rune(c)))
 	})
@@ -1629,7 +1638,54 @@ func registerStrings() {
 		}
 		return strings.Join(parts, sep)
 	}
-	native("unicode/utf8.ValidString", func(in *Interp, s []string, a []value) value { return b(in, utf8.ValidString(s[0])) })
+	I["unicode/utf8.ValidString"] = func(in *Interp, fr *frame, fn *ssa.Function, a []value) value {
+		if s, ok := concreteStr(a[0]); ok {
+			return in.tc.Bool(utf8.ValidString(s))
+		}
+		bs := a[0].(*SymStr).b
+		for i := 0; i < len(bs); {
+			r, n := in.decodeRuneSym(bs[i:])
+			if n == 1 && r.IsConst() && r.c == uint64(utf8.RuneError) {
+				return in.tc.False()
+			}
+			i += n
+		}
+		return in.tc.True()
+	}
+	I["unicode/utf8.Valid"] = func(in *Interp, fr *frame, fn *ssa.Function, a []value) value {
+		bs := a[0].([]value)
+		ts := make([]*Term, len(bs))
+		for i, x := range bs {
+			ts[i] = x.(*Term)
+		}
+		for i := 0; i < len(ts); {
+			r, n := in.decodeRuneSym(ts[i:])
+			if n == 1 && r.IsConst() && r.c == uint64(utf8.RuneError) {
+				return in.tc.False()
+			}
+			i += n
+		}
+		return in.tc.True()
+	}
+	I["unicode.IsSpace"] = func(in *Interp, fr *frame, fn *ssa.Function, a []value) value {
+		r := a[0].(*Term)
+		if r.IsConst() {
+			return in.tc.Bool(unicode.IsSpace(rune(signExt(r.c, 32))))
+		}
+		// one boolean term from the White_Space table
+		var alts []*Term
+		c := func(v uint32) *Term { return in.tc.Const(r.w, uint64(v)) }
+		for _, rg := range unicode.White_Space.R16 {
+			for v := uint32(rg.Lo); v <= uint32(rg.Hi); v += uint32(rg.Stride) {
+				if rg.Stride == 1 {
+					alts = append(alts, in.tc.And(in.tc.Ule(c(uint32(rg.Lo)), r), in.tc.Ule(r, c(uint32(rg.Hi)))))
+					break
+				}
+				alts = append(alts, in.tc.Eq(r, c(v)))
+			}
+		}
+		return in.tc.Or(alts...)
+	}
 	native("unicode/utf8.RuneCountInString", func(in *Interp, s []string, a []value) value {
 		return in.i64(int64(utf8.RuneCountInString(s[0])))
 	})
@@ -1793,6 +1849,38 @@ func registerStrings() {
 			out[i] = in.tc.Const(8, 0)
 		}
 		return out
+	}
+	I["(*strings.Replacer).Replace"] = func(in *Interp, fr *frame, fn *ssa.Function, a []value) value {
+		st := (*(a[0].(*value))).(structure)
+		var oldnew []string
+		for _, v := range st[len(st)-1].([]value) {
+			oldnew = append(oldnew, in.mustStr(v, "Replacer pairs"))
+		}
+		if s, ok := concreteStr(a[1]); ok {
+			return strings.NewReplacer(oldnew...).Replace(s)
+		}
+		for i := 0; i < len(oldnew); i += 2 {
+			if len(oldnew[i]) != 1 {
+				panic(engineErr("strings.Replacer with multi-byte patterns on a symbolic string"))
+			}
+		}
+		out := &SymStr{}
+	bytes:
+		for _, b := range a[1].(*SymStr).b {
+			for i := 0; i < len(oldnew); i += 2 {
+				if in.branch(in.tc.Eq(b, in.tc.Const(8, uint64(oldnew[i][0]))), "Replacer") {
+					for _, c := range []byte(oldnew[i+1]) {
+						out.b = append(out.b, in.tc.Const(8, uint64(c)))
+					}
+					continue bytes
+				}
+			}
+			out.b = append(out.b, b)
+		}
+		return out
+	}
+	I["reflect.DeepEqual"] = func(in *Interp, fr *frame, fn *ssa.Function, a []value) value {
+		return in.deepEqual(a[0], a[1], 0)
 	}
 	I["internal/abi.NoEscape"] = func(in *Interp, fr *frame, fn *ssa.Function, a []value) value { return a[0] }
 	I["internal/abi.Escape"] = func(in *Interp, fr *frame, fn *ssa.Function, a []value) value { return a[0] }
@@ -1972,6 +2060,24 @@ func registerMisc() {
 
 	// regexp: native, concrete only
 	I["regexp.Compile"] = func(in *Interp, fr *frame, fn *ssa.Function, a []value) value {
+		if _, ok := concreteStr(a[0]); !ok {
+			// symbolic pattern: the regexp engine is not interpreted; it either accepts
+			// or rejects the pattern (fresh choice), matching with it is unsupported
+			key := "regexp:"
+			for _, b := range a[0].(*SymStr).b {
+				key += fmt.Sprintf("%x.%x,", b.h1, b.h2)
+			}
+			okT, seen := in.side[key].(*Term)
+			if !seen {
+				okT = in.tc.Fresh("regexp.ok", 0)
+				in.side[key] = okT
+			}
+			if in.branch(okT, "regexp.Compile") {
+				var cell value = &Opaque{name: "regexp(symbolic)", data: key}
+				return tuple{&cell, iface{}}
+			}
+			return tuple{(*value)(nil), in.newErr("error parsing regexp")}
+		}
 		re, err := regexp.Compile(in.mustStr(a[0], "regexp.Compile"))
 		if err != nil {
 			return tuple{(*value)(nil), in.newErr(err.Error())}
@@ -2106,4 +2212,160 @@ func hashMethod(e *EngHash, meth *types.Func) value {
 		return &NativeFunc{name: "hash.BlockSize", fn: func(in *Interp, a []value) value { return in.i64(int64(e.h.BlockSize())) }}
 	}
 	panic(engineErr("hash method %s not modelled", meth.Name()))
+}
+
+// sprintfSym formats with %s / %v / %d / %q-free formats when some string argument
+// is symbolic, producing a SymStr by concatenation. Returns ok=false if not needed
+// or not expressible.
+func (in *Interp) sprintfSym(format string, args []value) (value, bool) {
+	anySym := false
+	for _, v := range args {
+		if i, ok := v.(iface); ok {
+			if ss, ok := i.v.(*SymStr); ok {
+				if _, c := concreteStr(ss); !c {
+					anySym = true
+				}
+			}
+		}
+	}
+	if !anySym {
+		return nil, false
+	}
+	out := &SymStr{}
+	k := 0
+	for i := 0; i < len(format); i++ {
+		ch := format[i]
+		if ch != '%' {
+			out.b = append(out.b, in.tc.Const(8, uint64(ch)))
+			continue
+		}
+		i++
+		if i >= len(format) {
+			return nil, false
+		}
+		switch format[i] {
+		case '%':
+			out.b = append(out.b, in.tc.Const(8, '%'))
+		case 's', 'v', 'd':
+			if k >= len(args) {
+				return nil, false
+			}
+			v := args[k]
+			k++
+			iv, ok := v.(iface)
+			if !ok {
+				return nil, false
+			}
+			if ss, ok := iv.v.(*SymStr); ok && !in.hasMethod(iv.t, "String") {
+				out.b = append(out.b, ss.b...)
+				continue
+			}
+			x := in.fmtArg(v, true)
+			for _, c := range []byte(fmt.Sprintf("%"+string(format[i]), x)) {
+				out.b = append(out.b, in.tc.Const(8, uint64(c)))
+			}
+		default:
+			return nil, false
+		}
+	}
+	return out, true
+}
+
+// deepEqual is reflect.DeepEqual on engine values (pointers are followed).
+func (in *Interp) deepEqual(x, y value, depth int) *Term {
+	tc := in.tc
+	if depth > 40 {
+		panic(engineErr("reflect.DeepEqual: too deep (cyclic?)"))
+	}
+	switch x := x.(type) {
+	case iface:
+		yi, ok := y.(iface)
+		if !ok {
+			return tc.False()
+		}
+		if x.t == nil || yi.t == nil {
+			return tc.Bool(x.t == nil && yi.t == nil)
+		}
+		if !types.Identical(x.t, yi.t) {
+			return tc.False()
+		}
+		return in.deepEqual(x.v, yi.v, depth+1)
+	case *value:
+		yp, ok := y.(*value)
+		if !ok {
+			return tc.False()
+		}
+		if x == nil || yp == nil {
+			return tc.Bool(x == nil && yp == nil)
+		}
+		if x == yp {
+			return tc.True()
+		}
+		return in.deepEqual(*x, *yp, depth+1)
+	case *Opaque:
+		yo, ok := y.(*Opaque)
+		if !ok {
+			return tc.False()
+		}
+		if x == yo {
+			return tc.True()
+		}
+		if rx, ok := x.data.(*regexp.Regexp); ok {
+			if ry, ok := yo.data.(*regexp.Regexp); ok {
+				return tc.Bool(rx.String() == ry.String())
+			}
+			return tc.False()
+		}
+		if kx, ok := x.data.(string); ok {
+			ky, _ := yo.data.(string)
+			return tc.Bool(kx == ky)
+		}
+		return tc.False()
+	case structure:
+		ys := y.(structure)
+		var cs []*Term
+		for i := range x {
+			cs = append(cs, in.deepEqual(x[i], ys[i], depth+1))
+		}
+		return tc.And(cs...)
+	case array:
+		ya := y.(array)
+		var cs []*Term
+		for i := range x {
+			cs = append(cs, in.deepEqual(x[i], ya[i], depth+1))
+		}
+		return tc.And(cs...)
+	case []value:
+		ys := y.([]value)
+		if (x == nil) != (ys == nil) || len(x) != len(ys) {
+			return tc.False()
+		}
+		var cs []*Term
+		for i := range x {
+			cs = append(cs, in.deepEqual(x[i], ys[i], depth+1))
+		}
+		return tc.And(cs...)
+	case *Map:
+		ym := y.(*Map)
+		if (x == nil) != (ym == nil) || x.Len() != ym.Len() {
+			return tc.False()
+		}
+		var cs []*Term
+		if x != nil {
+			for _, e := range x.entries {
+				if e.deleted {
+					continue
+				}
+				o := in.mapFind(ym, e.key, "reflect.DeepEqual")
+				if o == nil {
+					return tc.False()
+				}
+				cs = append(cs, in.deepEqual(e.val, o.val, depth+1))
+			}
+		}
+		return tc.And(cs...)
+	case *ssa.Function, *closure, *NativeFunc:
+		return tc.Bool(isNilFunc(x) && isNilFunc(y))
+	}
+	return in.equals(nil, x, y)
 }
